@@ -376,8 +376,11 @@ func Run(c *common.Ctx) error {
 	cases = append(cases, caseT{Target: "wal-pending-shrunk", TargetPS: 512, ImagePS: 512, ImageN: 5}, caseT{Target: "wal-pending-shrunk", TargetPS: 512, ImagePS: 512, ImageN: 4, ImageWAL: true},
 		caseT{Target: "wal-pending-shrunk", TargetPS: 512, ImagePS: 512, ImageN: 9}, caseT{Target: "wal-pending-shrunk", TargetPS: 512, ImagePS: 512, ImageN: 4, Bad: "garbage"})
 	cases = append(cases, caseT{Target: "rollback", TargetPS: 512, ImagePS: 512, ImageN: 260}, caseT{Target: "wal-pending", TargetPS: 512, ImagePS: 512, ImageN: 257, ImageWAL: true})
+	// the largest page size (the header field stores it as 1)
+	cases = append(cases, caseT{Target: "absent", TargetPS: 65536, ImagePS: 65536, ImageN: 3}, caseT{Target: "rollback", TargetPS: 65536, ImagePS: 65536, ImageN: 2},
+		caseT{Target: "wal-pending", TargetPS: 65536, ImagePS: 65536, ImageN: 3, ImageWAL: true}, caseT{Target: "rollback", TargetPS: 65536, ImagePS: 65536, ImageN: 3, Bad: "garbage"})
 	if c.Thorough() {
-		for _, ps := range []int{1024, 2048, 8192, 65536} {
+		for _, ps := range []int{1024, 2048, 8192, 32768} {
 			for _, tgt := range []string{"absent", "rollback", "wal-pending"} {
 				cases = append(cases, caseT{Target: tgt, TargetPS: ps, ImagePS: ps, ImageN: 3, ImageWAL: tgt == "wal-pending"},
 					caseT{Target: tgt, TargetPS: ps, ImagePS: ps, ImageN: 5, Bad: "truncated"})
@@ -392,6 +395,11 @@ func Run(c *common.Ctx) error {
 	c.Sample(map[string]any{"case": cases[2], "cases": len(cases)})
 	if err := exportDuringCommit(c, c.Rng.Fork()); err != nil {
 		return err
+	}
+	for _, wal := range []bool{false, true} {
+		if err := importWaitsForWriter(c, c.Rng.Fork(), wal); err != nil {
+			return err
+		}
 	}
 	if c.Thorough() {
 		if err := lockPageImport(c, c.Rng.Fork()); err != nil {
